@@ -1834,9 +1834,12 @@ class UserActions(object):
     if changes:
       self._engine.out_actions.summary.add_changes(table_id, col_id, changes)
 
-    if not to_formula:
+    if not to_formula or ('type' in col_info and not from_formula):
       # If converting to non-formula, any previously prepared calc actions should be removed from
-      # calc summary and actualized now (so that they don't override subsequent changes).
+      # calc summary and actualized now (so that they don't override subsequent changes). Same when
+      # a data column changes type while becoming a formula column: on undo, its old values must be
+      # set after the column got its old type back, or the new type's column would adjust them
+      # (e.g. 0.0 becomes False in a Bool column).
 
       # The UNDO action needs to be inserted before the one created by ModifyColumn, so that on
       # undo, we apply ModifyColumn first (getting the correct type), then set the values of
